@@ -201,6 +201,17 @@ def check_contain(ctx):
         bad = [c for c in chain if any(path_matches(c, f) for f in ("Iterator::filter", "Iterator::filter_map", "Iterator::take", "Iterator::skip"))]
         ctx.check(not bad, inst, "PROVENANCE", body.path, "no entry is filtered out while requeueing", None, {"chain": chain})
 
+    from rules.common import whole_collection_loop
+    qb = ctx.fn("write_buffer::quarantine_allocations", inst)
+    if qb is not None:
+        qr = ctx.sites(qb, R.call("write_buffer::quarantine_reservation"), inst, exact=1)
+        for q_ in qr:
+            ok, nm, det = whole_collection_loop(qb, q_, 0)
+            ctx.check(ok, inst, "FOLLOW", qb.path, "every allocation of the failed batch is considered for quarantine (loop over all allocations)", qb.where(q_), det)
+        R.guard(ctx, inst, qb, qr, A.pred_edges(qb, lambda e: e.has_field("PreparedWrite", "sector"), "Some"), "exactly the allocations that own sectors are quarantined")
+        for (sw, l) in A.pred_edges(qb, lambda e: e.has_field("PreparedWrite", "sector"), "Some"):
+            r, ps = A.reach(qb, edge_targets(qb, sw, l), blocked_nodes=set(qr))
+            ctx.check(not any(x in r for x in R.call("Iterator::next")(qb) + qb.return_nodes()), inst, "FOLLOW", qb.path, "an allocation that owns sectors is always quarantined", qb.where(sw))
     inst = "C09.contain/retire_extents"
     body = ctx.fn("DiskIO::retire_extents", inst)
     if body is not None:
